@@ -83,14 +83,14 @@ type lexState struct {
 	valSet  map[types.Object]bset         // locals assigned the current byte: the bytes they may hold (stays valid after advancing)
 	valueOf map[types.Object]types.Object // value := input[start:pos]  ->  start
 	// facts about the token being scanned (reset when Next is entered)
-	sig        bool // a byte other than a blank may have been consumed
-	nl         int  // line breaks consumed minus increments of the line counter
-	nlUnknown  bool // a byte that may or may not be a line break was consumed
-	sawNL      bool // a line break was consumed
-	atStartSet bool // the line-start flag was set to true
-	posSnap    map[types.Object]bool // start := l.position(): snapshot variables that hold a Position
-	sigAt      map[types.Object]bool // per snapshot: value of sig when it was taken
-	lead       map[types.Object]bool // per snapshot: input was consumed between an earlier position snapshot and this one
+	sig        bool                                   // a byte other than a blank may have been consumed
+	nl         int                                    // line breaks consumed minus increments of the line counter
+	nlUnknown  bool                                   // a byte that may or may not be a line break was consumed
+	sawNL      bool                                   // a line break was consumed
+	atStartSet bool                                   // the line-start flag was set to true
+	posSnap    map[types.Object]bool                  // start := l.position(): snapshot variables that hold a Position
+	sigAt      map[types.Object]bool                  // per snapshot: value of sig when it was taken
+	lead       map[types.Object]bool                  // per snapshot: input was consumed between an earlier position snapshot and this one
 	notAfter   map[types.Object]map[types.Object]bool // per snapshot o: snapshots taken at a position <= o's (existing when o was taken)
 	epoch      []types.Object                         // snapshots taken since the last advance (all at the current position)
 }
@@ -2210,10 +2210,10 @@ func (li *lexInterp) ret(s *ast.ReturnStmt, in []*lexState, fr *lexFrame) {
 // tokenPartsT: how a returned token is put together.
 type tokenPartsT struct {
 	kindExpr ast.Expr // the expression stored in Type when it is not (yet) a constant: a parameter of a constructor
-	kind   string   // name of the TokenType constant ("" = not a constant)
-	pos    ast.Expr // expression stored in Pos (nil: unknown)
-	posNow bool     // Pos is the lexer's position at the moment of construction
-	value  ast.Expr
+	kind     string   // name of the TokenType constant ("" = not a constant)
+	pos      ast.Expr // expression stored in Pos (nil: unknown)
+	posNow   bool     // Pos is the lexer's position at the moment of construction
+	value    ast.Expr
 }
 
 // tokenParts understands a Token composite literal and calls of pure constructors (methods or functions of
